@@ -89,6 +89,13 @@ def judge(rec, opts):
         got = run_with(rec, {"ns": score - 1})
         if got["ok"] or "LocalNamespaceLimitError" not in got.get("mro", []):
             out.append((f"namespace:limit-exceeded-without-error:{constructs(rec)}", {"limit": score - 1, "values": repr(vals), "got": got}))
+        # ... and at exactly that score it must succeed: the limit is a bound on what the namespace holds,
+        # not on what it held plus what replaces it
+        got = run_with(rec, {"ns": score})
+        # (exact for the namespace focus, whose values are ASCII and never shrink; elsewhere `nsvals` is the
+        # last state, not necessarily the heaviest)
+        if "namespace" in rec.get("focus", "") and not (got["ok"] and got["out"] == eout):
+            out.append((f"namespace:error-within-limit:{constructs(rec)}", {"limit": score, "values": repr(vals), "got": got}))
     # a huge limit changes nothing; after a success the score is within the limit
     got = run_with(rec, {"ns": HUGE})
     if not (got["ok"] and got["out"] == eout):
